@@ -31,9 +31,7 @@ def reqsRef (rs : List Crates.Req) : List Comparator := rs.filterMap toRefC
 /-- do the code's parser and the reference parser read `spec` as the same requirement? -/
 def sameReadingCrates (spec : Text) : String :=
   match Crates.parseSpec spec, CargoReq.parse spec with
-  | some s, some r =>
-    if !s.all reqBuildFree then "build"
-    else if reqsRef s == r then "same" else "diff"
+  | some s, some r => if reqsRef s == r then "same" else "diff"
   | none, none => "bothinvalid"
   | some _, none => "code-only"
   | none, some _ => "ref-only"
